@@ -230,7 +230,7 @@ Section RemInv.
   Variable rem_rec : state -> string -> Z -> state * outcome bool.
   Hypothesis rem_rec_P : forall s id now, P s -> P (fst (rem_rec s id now)).
 
-  Lemma expire_P s id fact now : P s -> P (fst (expire rem_rec s id fact now)).
+  Lemma expire_P s id fact now : P s -> P (fst (fst (expire rem_rec s id fact now))).
   Proof.
     intros HP. unfold expire. destruct (fact_expired fact now); [|exact HP].
     pose proof (rem_rec_P s id now HP) as H.
@@ -245,7 +245,8 @@ Section RemInv.
     - exact HP.
     - destruct (alookup id (st_facts s)) as [fact|]; [|apply IH; exact HP].
       pose proof (expire_P s id fact now HP) as H.
-      destruct (expire rem_rec s id fact now) as [s1 expired]. cbn [fst] in H.
+      destruct (expire rem_rec s id fact now) as [[s1 expired] err]. cbn [fst] in H.
+      destruct (expire_stops (st_kind s) err); [exact H|].
       destruct expired; [apply IH; exact H|].
       destruct (core_match pattern fact []) as [[|b bss]|e|w|]; try exact H; apply IH; exact H.
   Qed.
@@ -345,7 +346,7 @@ Proof.
   - exact HP.
   - destruct (alookup id (st_facts s)) as [fact|]; [|exact HP].
     pose proof (expire_P st_rem_rec st_rem_rec_P s id fact now HP) as H.
-    destruct (expire st_rem_rec s id fact now) as [s1 expired]. cbn [fst] in H.
+    destruct (expire st_rem_rec s id fact now) as [[s1 expired] err]. cbn [fst] in H.
     destruct expired; [apply IH; exact H|].
     destruct (extract_rule fact true) as [[body|]|e|w|]; try exact H. apply IH; exact H.
 Qed.
@@ -492,7 +493,7 @@ Proof.
   - exists (rev acc). split; [reflexivity|]. intros i b. rewrite <- in_rev.
     split; [intros H; left; exact H|]. intros [H|[[] _]]; exact H.
   - destruct (alookup id (st_facts s)) as [fact|] eqn:El.
-    + assert (Hx : expire rr s id fact now = (s, false)).
+    + assert (Hx : expire rr s id fact now = (s, false, None)).
       { unfold expire. rewrite (Hexp id fact El). reflexivity. }
       rewrite Hx. destruct (Hok id fact El) as (bss & Hm). rewrite Hm.
       destruct bss as [|b0 bss].
